@@ -587,6 +587,14 @@ class PyInterp(object):
                     raise _Stop()
         if isinstance(e, ast.Call):
             return self.call(e, fr)
+        if isinstance(e, ast.Compare) and len(e.ops) == 1 and isinstance(e.ops[0], (ast.In, ast.NotIn)) and \
+                isinstance(e.comparators[0], (ast.Tuple, ast.List, ast.Set)):
+            # v.value in (a.value, b.value): a disjunction of value equalities
+            x = self._attr(e.left, fr)
+            ys = [self._attr(y, fr) for y in e.comparators[0].elts]
+            if x and x[1] == "value" and ys and all(y and y[1] == "value" for y in ys):
+                res = any(self.v.ve(x[0], y[0]) for y in ys)
+                return res if isinstance(e.ops[0], ast.In) else not res
         if isinstance(e, ast.Compare) and len(e.ops) == 1:
             l, r, op = e.left, e.comparators[0], e.ops[0]
             x, y = self._attr(l, fr), self._attr(r, fr)
